@@ -384,6 +384,13 @@ func (x *execState) accept() {
 	for {
 		select {
 		case raw := <-x.fx.AcceptCh():
+			if x.noDial.Load() {
+				// dialed just before dials were switched off: the final phases
+				// require that no connection exists any more
+				raw.Close()
+				x.count("conns_closed_unanswered_in_final_phase", 1)
+				continue
+			}
 			c := &sconn{idx: len(x.conns), raw: raw, streams: map[uint32]*sstream{}, enc: newHenc()}
 			x.conns = append(x.conns, c)
 			hs := "ok"
@@ -1300,6 +1307,21 @@ func run(sc scenario, res *caseResult) {
 	fx.CC.Close()
 	synctest.Wait()
 	x.feed()
+	if sc.Retry && x.running() > 0 {
+		// With a retry policy an RPC may sit in its back-off / server push-back
+		// timer, which selects on the RPC's own context only: ClientConn.Close
+		// does not wake it (it fails when the timer fires).  Not covered by the
+		// statement; cancel those RPCs so that the case can end.
+		x.count("rpcs_in_retry_backoff_after_close_cancelled", int64(x.running()))
+		x.mu.Lock()
+		for _, r := range x.rpcs {
+			if r.cancel != nil {
+				r.cancel()
+			}
+		}
+		x.mu.Unlock()
+		synctest.Wait()
+	}
 	stuck := x.judgeFinal(true)
 	if stuck > 0 {
 		// try to free them so that the process survives; the violation stands
@@ -1377,6 +1399,11 @@ func (x *execState) judgeFinal(report bool) int {
 				continue
 			}
 			st, ok := status.FromError(r.err)
+			if !ok && errors.Is(r.err, io.EOF) && strings.Contains(r.err.Error(), "max retries exhausted") {
+				// specific class: the retry code wraps the io.EOF of a replayed SendMsg
+				x.v("rpc-error-without-status:max-retries-exhausted-wraps-EOF", "rpc %d (%s) returned an error that carries no status (the stream's real status is lost): %T %v", i, r.spec.Kind, r.err, r.err)
+				continue
+			}
 			if !ok {
 				x.v("rpc-error-without-status", "rpc %d (%s) returned an error that carries no status: %T %v", i, r.spec.Kind, r.err, r.err)
 				continue
